@@ -138,7 +138,16 @@ impl Manifest {
         let mut begin = false;
 
         for value in stream {
-            let value = value?;
+            let value = match value {
+                Ok(value) => value,
+                // A record cut short at the end of the file belongs to a transaction that was
+                // being appended when the process died. It has no `End`, so it never committed.
+                Err(e) if e.is_eof() => {
+                    warn!("manifest: find truncated entry at the end, ignored");
+                    break;
+                }
+                Err(e) => return Err(e.into()),
+            };
             match value {
                 ManifestOperation::Begin => begin = true,
                 ManifestOperation::End => {
